@@ -459,6 +459,10 @@ def k_str_insert(E, tier):
         ok = len(news) == 1 and len(quotes) == 1 and news[0].args[1] is quotes[0].result
         rec.add("path %d: result is built with the quotes() of the string argument" % i,
                 {"verdict": "holds" if ok else "violated", "per_solver": {"structural": "event identity"}, "time_s": 0})
+        lens = [e.callee for e in p.events if re.search(r"str>::len$|String::len$|::len$", e.callee)]
+        rec.add("path %d: positions are counted in chars() (code points); no byte length is consulted" % i,
+                {"verdict": "holds" if (not lens and any(e.callee == "chars" for e in p.events)) else "violated",
+                 "per_solver": {"structural": "events %s" % lens}, "time_s": 0})
     if done == 0:
         rec.add("at least one Ok path with a take event", {"verdict": "inconclusive", "per_solver": {}, "time_s": 0})
     rec.events = sorted({e.callee[:70] for p in paths for e in p.events})
@@ -1954,4 +1958,192 @@ def k_for_bounds(E, tier):
             rec.add("to path %d: unexpected shape %s" % (i, names), {"verdict": "inconclusive", "per_solver": {}, "time_s": 0})
     if not {"bare", "converted", "incompatible"} <= kinds:
         rec.add("to: bare, converted and incompatible cases all present (%s)" % sorted(kinds), {"verdict": "inconclusive", "per_solver": {}, "time_s": 0})
+    return rec
+
+
+def k_map_merge(E, tier):
+    """C13: the flat case of map.merge (do_merge with no nested keys): every entry of m2, in m2's order, is
+    inserted into m1 as (key, value) — so m2's values win and m1's order comes first (OrderMap::insert: E1)."""
+    f = E.find(name="do_merge", contains=["OrderMap::<css::value::Value, css::value::Value>::insert"])
+    rec = Rec("map.merge (do_merge, flat case)", f, E)
+    ctx = E.ctx()
+    keys = sym.Opaque("impl Iterator", "keys", ctx)
+    m1 = sym.Opaque("OrderMap", "m1", ctx)
+    m2 = sym.Opaque("OrderMap", "m2", ctx)
+    pairs = []
+
+    def m_keys_next(ex, st, c, a, d):
+        return sym.Agg(d, "None", {}, 0)  # no nested keys
+
+    def m_into_iter(ex, st, c, a, d):
+        o = sym.Opaque("IntoIter", "iter", ctx)
+        st.events.append(sym.Event("into_iter", [ex.resolve_ref(st, a[0])], o, len(st.pc)))
+        return o
+
+    def m_next(ex, st, c, a, d):
+        n = sum(1 for e in st.events if e.callee == "next-some")
+        some = st.fork()
+        none = st.fork()
+        while len(pairs) <= n:
+            i = len(pairs)
+            pairs.append((sym.Opaque("css::value::Value", "k%d" % i, ctx), sym.Opaque("css::value::Value", "v%d" % i, ctx)))
+        k, v = pairs[n]
+        some.events.append(sym.Event("next-some", [ex.resolve_ref(st, a[0])], None, len(st.pc)))
+        none.events.append(sym.Event("next-none", [ex.resolve_ref(st, a[0])], None, len(st.pc)))
+        return [(some, sym.Agg(d, "Some", {"0": sym.Agg("pair", None, {"0": k, "1": v})}, 1)), (none, sym.Agg(d, "None", {}, 0))]
+
+    def m_insert(ex, st, c, a, d):
+        e = sym.Event("insert", a, None, len(st.pc))
+        e.rargs = [ex.resolve_ref(st, x) for x in a]
+        st.events.append(e)
+        return sym.Opaque(d or "Option", "old", ctx)
+
+    models = [
+        (r"^<impl Iterator<Item = Value> as Iterator>::next$", m_keys_next),
+        (r"^<OrderMap<css::value::Value, css::value::Value> as IntoIterator>::into_iter$", m_into_iter),
+        (r"^<std::vec::IntoIter<\(css::value::Value, css::value::Value\)> as Iterator>::next$", m_next),
+        (r"^OrderMap::<css::value::Value, css::value::Value>::insert$", m_insert),
+    ] + BASE_MODELS
+    ex = sym.Executor(ctx, models=models, unroll=4, feasibility=E.feasibility(ctx))
+    allp = ex.run(f, [keys, sym.Ref("val", m1), m2])
+    paths = [p for p in allp if p.status == "return"]
+    rec.paths = len(paths)
+    seen_n = set()
+    for p in paths:
+        its = [e for e in p.events if e.callee == "into_iter"]
+        somes = [e for e in p.events if e.callee == "next-some"]
+        ins = [e for e in p.events if e.callee == "insert"]
+        other = sorted({re.sub(r"::<.*", "", e.callee) for e in p.events
+                        if e.callee not in ("into_iter", "next-some", "next-none", "insert", "drop")})
+        n = len(somes)
+        if len(its) != 1:
+            rec.add("merge with %d entries: one iteration over a map (shape not recognised: %s)" % (n, other),
+                    {"verdict": "inconclusive", "per_solver": {}, "time_s": 0})
+            continue
+        seen_n.add(n)
+        src_ok = its[0].args[0] is m2
+        ok = src_ok and len(ins) == n and all(
+            ins[i].rargs[0] is m1 and ins[i].rargs[1] is pairs[i][0] and ins[i].rargs[2] is pairs[i][1] for i in range(n))
+        rec.add("merge, m2 with %d entr%s: each (key, value) of m2, in order, is inserted into m1%s" % (n, "y" if n == 1 else "ies", (" [other calls: %s]" % other) if other else ""),
+                {"verdict": "holds" if ok else "violated", "per_solver": {"structural": "event identity"}, "time_s": 0})
+    if not {0, 1, 2} <= seen_n:
+        rec.add("merge explored for m2 of 0, 1 and 2 entries (%s)" % sorted(seen_n), {"verdict": "inconclusive", "per_solver": {}, "time_s": 0})
+    rec.notes.append("loop unrolled to 3 iterations; the nested-key recursion (keys.next() = Some) is outside")
+    return rec
+
+
+def k_unitset_simplify(E, tier):
+    """C11: one cancellation step of UnitSet::simplify (what `*` and `/` use to cancel convertible units):
+    for units a^ap and b^bp with 1 b = f a, the smaller exponent is folded into the larger one, the scale
+    factor is multiplied by f^bp (folding b into a) or divided by f^ap (folding a into b) with the SIGNED
+    exponent, and the exponents are added."""
+    f = E.find(name_re=r"^unitset::<impl at .*>::simplify$")
+    rec = Rec("UnitSet::simplify (one cancellation step)", f, E)
+    ctx = E.ctx()
+    ap = ctx.fresh_scalar(("bv", 8, True), "ap")
+    bp = ctx.fresh_scalar(("bv", 8, True), "bp")
+    fac = ctx.fresh_scalar("f64", "f")
+    au = sym.Opaque("Unit", "au", ctx)
+    bu = sym.Opaque("Unit", "bu", ctx)
+    me = sym.Opaque("UnitSet", "self", ctx)
+    inv = ["(bvsge %s %s)" % (x.term, bvlit(-127, 8)) for x in (ap, bp)]  # invariant kept by add_pow
+
+    def m_len(ex, st, c, a, d):
+        return ctx.fresh_scalar(("bv", 64, False), "n")
+
+    def m_range_next(ex, st, c, a, d):
+        n = sum(1 for e in st.events if e.callee == "outer-some")
+        if n >= 1:
+            return sym.Agg(d, "None", {}, 0)
+        st.events.append(sym.Event("outer-some", [], None, len(st.pc)))
+        return sym.Agg(d, "Some", {"0": sym.Scalar(("bv", 64, False), bvlit(1, 64))}, 1)
+
+    def m_split(ex, st, c, a, d):
+        return sym.Agg("tuple", None, {"0": sym.Opaque("slice", "a-part", ctx), "1": sym.Opaque("slice", "b-part", ctx)})
+
+    def m_last_mut(ex, st, c, a, d):
+        st.cells["A"] = sym.Agg("(Unit, i8)", None, {"0": au, "1": ap})
+        return sym.Agg(d, "Some", {"0": sym.Ref("cell", "A")}, 1)
+
+    def m_iter_next(ex, st, c, a, d):
+        n = sum(1 for e in st.events if e.callee == "inner-some")
+        if n >= 1:
+            return sym.Agg(d, "None", {}, 0)
+        st.events.append(sym.Event("inner-some", [], None, len(st.pc)))
+        st.cells["B"] = sym.Agg("(Unit, i8)", None, {"0": bu, "1": bp})
+        return sym.Agg(d, "Some", {"0": sym.Ref("cell", "B")}, 1)
+
+    def m_scale_to(ex, st, c, a, d):
+        e = sym.Event("scale_to", a, fac, len(st.pc))
+        e.rargs = [ex.resolve_ref(st, x) for x in a]
+        some = st.fork()
+        none = st.fork()
+        some.events.append(e)
+        return [(some, sym.Agg(d, "Some", {"0": fac}, 1)), (none, sym.Agg(d, "None", {}, 0))]
+
+    def m_abs8(ex, st, c, a, d):
+        t = a[0].term
+        return sym.Scalar(("bv", 8, True), "(ite (bvslt %s %s) (bvneg %s) %s)" % (t, bvlit(0, 8), t, t))
+
+    def m_into32(ex, st, c, a, d):
+        return sym.cast(a[0], "i8", "i32", "IntToInt")
+
+    def m_powi(ex, st, c, a, d):
+        o = ctx.fresh_scalar("f64", "powi")
+        st.events.append(sym.Event("powi", a, o, len(st.pc)))
+        return o
+
+    def m_add_pow(ex, st, c, a, d):
+        x, y = a[0].term, a[1].term
+        wide = "(bvadd ((_ sign_extend 8) %s) ((_ sign_extend 8) %s))" % (x, y)
+        cl = "(ite (bvsgt {w} {hi}) {hi} (ite (bvslt {w} {lo}) {lo} {w}))".format(w=wide, hi=bvlit(127, 16), lo=bvlit(-127, 16))
+        o = sym.Scalar(("bv", 8, True), "((_ extract 7 0) %s)" % cl)
+        st.events.append(sym.Event("add_pow", a, o, len(st.pc)))
+        return o
+
+    ident = lambda ex, st, c, a, d: a[0]
+    models = [
+        (r"^Vec::<\(Unit, i8\)>::len$", m_len), (r"^<std::ops::Range<usize> as IntoIterator>::into_iter$", ident),
+        (r"^<std::ops::Range<usize> as Iterator>::next$", m_range_next),
+        (r"^<Vec<\(Unit, i8\)> as DerefMut>::deref_mut$", lambda ex, st, c, a, d: sym.Opaque("slice", "units", ctx)),
+        (r"split_at_mut$", m_split), (r"last_mut$", m_last_mut),
+        (r"^<&mut \[\(Unit, i8\)\] as IntoIterator>::into_iter$", ident),
+        (r"^<std::slice::IterMut<'_, \(Unit, i8\)> as Iterator>::next$", m_iter_next),
+        (r"^Unit::scale_to$", m_scale_to), (r"^core::num::<impl i8>::abs$", m_abs8),
+        (r"^<i8 as std::convert::Into<i32>>::into$", m_into32), (r"^std::f64::<impl f64>::powi$", m_powi),
+        (r"^add_pow$", m_add_pow),
+    ] + BASE_MODELS
+    ex = sym.Executor(ctx, models=models, unroll=4, feasibility=E.feasibility(ctx))
+    paths = [p for p in ex.run(f, [sym.Ref("val", me)]) if p.status == "return"]
+    rec.paths = len(paths)
+    kinds = set()
+    for i, p in enumerate(paths):
+        pw = [e for e in p.events if e.callee == "powi"]
+        sc = [e for e in p.events if e.callee == "scale_to"]
+        if not pw:
+            continue  # nothing cancelled on this path (zero exponent, or units do not convert)
+        if len(pw) != 1 or len(sc) != 1 or "A" not in p.cells or "B" not in p.cells or not isinstance(p.ret, sym.Scalar):
+            rec.add("path %d: one scale_to and one powi per step (shape not recognised)" % i, {"verdict": "inconclusive", "per_solver": {}, "time_s": 0})
+            continue
+        dir_ok = sc[0].rargs[0] is bu and sc[0].rargs[1] is au
+        rec.add("path %d: the factor asked for converts the later unit b into the earlier unit a" % i,
+                {"verdict": "holds" if dir_ok else "violated", "per_solver": {"structural": "identity"}, "time_s": 0})
+        base, expo = pw[0].args[0], pw[0].args[1]
+        P = pw[0].result.term
+        A1, B1 = p.cells["A"].fields["1"].term, p.cells["B"].fields["1"].term
+        sx = lambda t: "((_ sign_extend 24) %s)" % t
+        absx = lambda t: "(ite (bvslt {t} {z}) (bvneg {t}) {t})".format(t=t, z=bvlit(0, 8))
+        a_bigger = "(bvsgt %s %s)" % (absx(ap.term), absx(bp.term))
+        summ = "((_ extract 7 0) (let ((w (bvadd ((_ sign_extend 8) %s) ((_ sign_extend 8) %s)))) (ite (bvsgt w %s) %s (ite (bvslt w %s) %s w))))" % (
+            ap.term, bp.term, bvlit(127, 16), bvlit(127, 16), bvlit(-127, 16), bvlit(-127, 16))
+        want = ("(ite {ab} (and (= {e} {sbp}) (= {ret} (fp.mul RNE {one} {P})) (= {A1} {sum}) (= {B1} {z})) "
+                "(and (= {e} {sap}) (= {ret} (fp.div RNE {one} {P})) (= {B1} {sum}) (= {A1} {z})))").format(
+            ab=a_bigger, e=expo.term, sbp=sx(bp.term), sap=sx(ap.term), ret=p.ret.term, one=F1, P=P, A1=A1, B1=B1, sum=summ, z=bvlit(0, 8))
+        r = E.decide(ctx, inv + p.pc + ["(= %s %s)" % (base.term, fac.term), "(not %s)" % want], model_names=[ap.term, bp.term])
+        kinds.add("step")
+        rec.add("path %d: factor *= f^bp / factor /= f^ap with the signed exponent of the folded unit; exponents added, folded one zeroed" % i, r,
+                {"lift": "simplify"})
+    if "step" not in kinds:
+        rec.add("a cancelling path was explored", {"verdict": "inconclusive", "per_solver": {}, "time_s": 0})
+    rec.notes.append("one outer and one inner loop iteration from an arbitrary (ap, bp) in [-127,127]^2 and an arbitrary factor f; powi is uninterpreted")
     return rec
